@@ -15,7 +15,7 @@ from vf import core
 from vf.checks import re_common as rc
 from vf.checks.re_common import hx, INT_MAX
 
-THM = ["YaraModel.Thm.C02"]
+THM = ["YaraModel.Thm.C02", "YaraModel.Thm.C02EndToEnd"]
 MANIFEST = dict(
     technique="Lean 4: specification of the regexp AST (sets of end positions, cross-checked against a relational formulation), theorems on jump splitting, atom "
               "decomposition, the chain bookkeeping and the bytecode VM + spec-level correspondence against the real compiler/scanner + AST tie through the re_ast "
